@@ -92,6 +92,8 @@ type gcfg struct {
 	Dotimes     bool
 	Macrolet    bool
 	GSet        bool   // (set 'g v) assignments inside expressions
+	GSetExpr    bool   // (set 'g v) also in value position (it returns v)
+	NeedGSet    bool   // keep only sessions that assign a global from inside an expression
 	FunArg      bool   // (function n) and #^ prefix lambdas
 	Styles      int    // defun parameter styles: 1 = plain, 4 = plain,&key,&optional,&rest
 	Packages    bool   // in-package / export / use-package / pkg:name
@@ -117,7 +119,7 @@ type gcfg struct {
 // per-skeleton context: what the holes may refer to
 type gctx struct {
 	globals  uint8      // names globally defined somewhere in the session (any package)
-	setNames uint8      // names defined by a top-level set
+	setNames [2]uint8   // names defined by a top-level set, per package
 	keyFns   [][2]int8  // (n, p) of &key functions
 	zeroFns  uint8      // names with an &optional / &rest definition (callable with no argument)
 	macros   []macroDef // global macros
@@ -133,7 +135,7 @@ type macroDef struct {
 
 func (c *gctx) key() string {
 	var b strings.Builder
-	fmt.Fprintf(&b, "%d/%d/%d|", c.globals, c.setNames, c.zeroFns)
+	fmt.Fprintf(&b, "%d/%d.%d/%d|", c.globals, c.setNames[0], c.setNames[1], c.zeroFns)
 	for _, k := range c.keyFns {
 		fmt.Fprintf(&b, "k%d.%d", k[0], k[1])
 	}
@@ -151,6 +153,7 @@ type scope struct {
 	lmac   bool  // a macrolet macro `lm` is in scope
 	lmFree int8  // 1 + the name its template mentions free (0 = none)
 	lmDead bool  // that name was rebound since the macrolet: calling lm here would capture (not statically scoped)
+	pkg    int8  // package the enclosing top-level item is evaluated in
 }
 
 type memoKey struct {
@@ -161,6 +164,7 @@ type memoKey struct {
 	lmac   bool
 	lmFree int8
 	lmDead bool
+	pkg    int8
 }
 
 type gen struct {
@@ -222,7 +226,7 @@ func (g *gen) list(ctx int, nt uint8, w int, sc scope) []*term {
 	if w <= 0 {
 		return nil
 	}
-	k := memoKey{ctx, nt, int8(w), sc.local, sc.lmac, sc.lmFree, sc.lmDead}
+	k := memoKey{ctx, nt, int8(w), sc.local, sc.lmac, sc.lmFree, sc.lmDead, sc.pkg}
 	if l, ok := g.memo[k]; ok {
 		return l
 	}
@@ -431,6 +435,16 @@ func (g *gen) genExpr(ctx int, w int, sc scope) []*term {
 			}
 		}
 	}
+	if g.cfg.GSetExpr {
+		// (set 'g A) as an expression: assignment of a global that the package's own top-level set defines
+		for n := 0; n < nn; n++ {
+			if c.setNames[sc.pkg]&(1<<uint(n)) != 0 {
+				for _, a := range g.list(ctx, ntArg, w-1, sc) {
+					out = append(out, &term{k: kGSet, n: int8(n), kids: []*term{a}})
+				}
+			}
+		}
+	}
 	if g.cfg.FunArg {
 		for n := 0; n < nn; n++ {
 			if bound&(1<<uint(n)) == 0 {
@@ -478,7 +492,7 @@ func (g *gen) genStmt(ctx int, w int, sc scope) []*term {
 	}
 	if g.cfg.GSet {
 		for n := 0; n < nn; n++ {
-			if c.setNames&(1<<uint(n)) != 0 {
+			if c.setNames[sc.pkg]&(1<<uint(n)) != 0 { // assignment only: the package's own top-level set defines it
 				for _, a := range args {
 					out = append(out, &term{k: kGSet, n: int8(n), kids: []*term{a}})
 				}
@@ -858,7 +872,7 @@ func contextOf(items []item) *gctx {
 		case itDefun, itSet:
 			c.globals |= 1 << uint(it.n)
 			if it.k == itSet {
-				c.setNames |= 1 << uint(it.n)
+				c.setNames[it.pkg] |= 1 << uint(it.n)
 			}
 			q := [2]int8{it.pkg, it.n}
 			if !seenQ[q] {
@@ -1456,24 +1470,28 @@ func (g *gen) enumerate(visit func(p program)) (skeletons int64) {
 		var fill func(i int)
 		fill = func(i int) {
 			if i == len(its) {
-				visit(g.render(its))
+				p := g.render(its)
+				if g.cfg.NeedGSet && !strings.Contains(","+p.Tags+",", ",gset,") {
+					return
+				}
+				visit(p)
 				return
 			}
 			it := &its[i]
 			var l []*term
 			switch it.k {
 			case itDefun:
-				l = g.list(ctx, ntExpr, it.hole, scope{local: 1 << uint(it.p)})
+				l = g.list(ctx, ntExpr, it.hole, scope{local: 1 << uint(it.p), pkg: it.pkg})
 			case itSet:
-				sc := scope{}
+				sc := scope{pkg: it.pkg}
 				if it.style == 5 || it.style == 7 {
 					sc = sc.bind(len(g.cfg.Names) - 1) // the value sees the wrapper's binder
 				}
 				l = g.list(ctx, ntArg, it.hole, sc)
 			case itStmt:
-				l = g.list(ctx, ntStmt, it.hole, scope{})
+				l = g.list(ctx, ntStmt, it.hole, scope{pkg: it.pkg})
 			case itFinal:
-				l = g.list(ctx, ntExpr, it.hole, scope{})
+				l = g.list(ctx, ntExpr, it.hole, scope{pkg: it.pkg})
 			default:
 				fill(i + 1)
 				return
